@@ -4,6 +4,8 @@
 let nl (l : n list) = String.concat "." (List.map (fun x -> string_of_int (int_of_n x)) l)
 let parse_op (s : string) : op =
   let n i = n_of_string i in
+  (* "-", "~" and "_" are the three C++ forms of the one empty frame *)
+  let bytes_of_hex h = if h = "~" || h = "_" then [] else bytes_of_hex h in
   match String.split_on_char ',' s with
   | ["pd"; i; h; ts; now] -> PortData (n i, bytes_of_hex h, n ts, n now)
   | ["pc"; i; now] -> PortChanged (n i, n now)
